@@ -9,6 +9,7 @@ type acceptEvent struct {
 	Eco   string   `json:"eco"`
 	Texts []string `json:"texts"`
 	Ok    []bool   `json:"ok"`
+	OkR   []bool   `json:"okr"` // the same text accepted as a range
 }
 
 type absConstraint struct {
@@ -33,10 +34,12 @@ func init() {
 	handlers["accept"] = func(j Job, emit func(any)) {
 		eco := ecos[j.str("eco")]
 		texts := j.strs("texts")
-		ev := acceptEvent{K: "accept", Eco: eco.Name, Texts: texts, Ok: make([]bool, len(texts))}
+		ev := acceptEvent{K: "accept", Eco: eco.Name, Texts: texts, Ok: make([]bool, len(texts)), OkR: make([]bool, len(texts))}
 		for i, t := range texts {
 			_, nilv, err, pan := eco.ParseV(t)
 			ev.Ok[i] = pan == "" && err == nil && !nilv
+			_, nilr, errr, panr := eco.ParseR(t)
+			ev.OkR[i] = panr == "" && errr == nil && !nilr
 		}
 		emit(ev)
 	}
